@@ -846,7 +846,15 @@ impl Lowerer {
         let mut selected = self.declare_as_columns(within, false)?;
         if let Some(except) = except {
             let except: HashSet<_> = self.find_except_ids(except)?;
+            #[cfg(prqlc_verif)]
+            let verif_within = selected.clone();
             selected.retain(|t| !except.contains(t));
+            // verification hook: what `all except` keeps (ids of `within`, ids to exclude, result)
+            #[cfg(prqlc_verif)]
+            verif_op(
+                "selected_all",
+                serde_json::json!({"within": verif_within, "except": except.iter().sorted().collect_vec(), "out": selected}),
+            );
         }
         Ok(selected)
     }
